@@ -7,7 +7,7 @@
    Division by zero is an explicit result (C02_DivByZero), never a number. *)
 From Coq Require Import ZArith.
 From mathcomp Require Import all_ssreflect all_algebra.
-From DuneV Require Import C02_Model C02_Spec C02_Proofs C02_Proofs_Invert C02_Proofs_Closed C02_Proofs_Diag C02_Proofs_NoPivot C02_Proofs_Audit.
+From DuneV Require Import Params_gen C02_Model C02_Spec C02_Proofs C02_Proofs_Invert C02_Proofs_Closed C02_Proofs_Diag C02_Proofs_NoPivot C02_Proofs_Audit C02_Proofs_Deep C02_Proofs_Prin C02_Proofs_Limit.
 Import GRing.Theory.
 Local Open Scope ring_scope.
 
@@ -64,8 +64,9 @@ Proof. exact (P_invert_lu_singular absr0). Qed.
    \det (lead k M) is the leading principal minor of order k;  minors_nz m M := forall k, 0 < k < m -> \det (lead k M) != 0.
    determinant needs the minors of order < n (a zero LAST pivot is a singular matrix and yields 0 = \det A),
    solve / invert need all of them (order n is \det A itself).
-   (Only this direction is proved; the converse "Ok only if the minors are non-zero" is not.  The sound halves for the
-   unpivoted mode hold unconditionally: C02_solve_sound, C02_invert_sound, C02_singular_solve, C02_singular_invert.) *)
+   The converse holds too (C02_solve_nopivot_iff, C02_invert_nopivot_iff: for n >= 4 the unpivoted calls succeed IF AND ONLY IF the
+   minors are non-zero), and \det (lead k M) is the determinant of the k x k submatrix of the first k rows and columns
+   (C02_lead_is_principal_minor). *)
 Theorem C02_det_nopivot : forall n A, (0 < n)%N -> c02_wfm n A -> minors_nz n (mx n A) ->
   c02_determinant ops A false = C02_Ok (\det (mx n A)).
 Proof. exact (P_det_nopivot absr0). Qed.
@@ -121,8 +122,71 @@ Theorem C02_checked_regular : forall n A b piv, (0 < n)%N -> c02_wfm n A -> mx n
   c02_solve_chk ops A b piv = c02_solve ops A b piv /\ c02_invert_chk ops A piv = c02_invert ops A piv.
 Proof. exact (checked_regular absr0). Qed.
 
-(* NOT A THEOREM: "inputs unchanged" — the model is purely functional (A, b are values); the impl side of the
-   correspondence check compares A and b before/after every solve / determinant call (flag U). *)
+(* ---- deepening round *)
+(* singular, n >= 4: determinant returns zero with AND without pivoting *)
+Theorem C02_singular_det : forall n A piv, (3 < n)%N -> c02_wfm n A -> mx n A \notin unitmx ->
+  c02_determinant ops A piv = C02_Ok 0.
+Proof. exact (P_det_singular absr0). Qed.
+
+(* n >= 4: no call ever divides by zero, for every matrix and both pivoting modes (the result is Ok or FMatrixError) *)
+Theorem C02_lu_never_divides_by_zero : forall n A b piv, (3 < n)%N -> c02_wfm n A -> c02_wfv n b ->
+  [/\ c02_solve ops A b piv <> C02_DivByZero, c02_invert ops A piv <> C02_DivByZero
+    & c02_determinant ops A piv <> C02_DivByZero].
+Proof. exact (P_lu_no_divbyzero absr0). Qed.
+
+(* n <= 3 (closed forms, no DUNE_FMatrix_WITH_CHECKING): the only failure is the division by the zero determinant,
+   and it happens IF AND ONLY IF A is singular — which is why the property claims FMatrixError only for n >= 4 *)
+Theorem C02_closed_divbyzero_iff : forall n A b piv, (0 < n <= 3)%N -> c02_wfm n A -> c02_wfv n b ->
+  [/\ (c02_solve ops A b piv = C02_DivByZero) <-> (\det (mx n A) = 0),
+      (c02_invert ops A piv = C02_DivByZero) <-> (\det (mx n A) = 0),
+      c02_solve ops A b piv <> C02_FMatrixError & c02_invert ops A piv <> C02_FMatrixError].
+Proof. exact (@closed_divbyzero_iff F absr). Qed.
+
+(* "whenever the unpivoted elimination is defined", both directions, n >= 4 *)
+Theorem C02_solve_nopivot_iff : forall n A b, (3 < n)%N -> c02_wfm n A -> c02_wfv n b ->
+  (exists x, c02_solve ops A b false = C02_Ok x) <-> minors_nz n.+1 (mx n A).
+Proof. exact (P_solve_nopivot_iff absr0). Qed.
+Theorem C02_invert_nopivot_iff : forall n A, (3 < n)%N -> c02_wfm n A ->
+  (exists B, c02_invert ops A false = C02_Ok B) <-> minors_nz n.+1 (mx n A).
+Proof. exact (P_invert_nopivot_iff absr0). Qed.
+Theorem C02_lead_is_principal_minor : forall n k (Hk : (k <= n)%N) (M : 'M[F]_n),
+  \det (lead k M) = \det (\matrix_(i < k, j < k) M (widen_ord Hk i) (widen_ord Hk j)).
+Proof. exact (@lead_prin F). Qed.
+
+(* what luDecomposition with ElimPivot leaves (compared with the C++ objects by the deep stream): the packed matrix holds
+   a unit lower triangular L (Lv: entries below the diagonal) and an upper triangular U (Uv) with non-zero diagonal, and
+   L * U = P * A for the row permutation P = P_{n-1} ... P_0 recorded in the pivot vector (PP); both pivoting modes *)
+Theorem C02_lu_factorisation : forall n A piv LU pivot, c02_wfm n A ->
+  c02_lu ops (c02_ElimPivot F) n piv A (iota 0 n) = C02_LU_Ok (LU, pivot) ->
+  [/\ Lv absr n n LU *m Uv absr n n LU = PP F n pivot n *m mx n A,
+      forall k, (k < n)%N -> c02_get ops LU k k != 0
+    & forall k, (k < n)%N -> (nth 0%N pivot k < n)%N].
+Proof. exact (lu_factorisation absr0). Qed.
+
+(* rows != cols (DynamicMatrix, FieldMatrix<K,r,c>): every call reports FMatrixError *)
+Theorem C02_nonsquare : forall A b piv, c02_rows A != c02_cols A ->
+  [/\ c02_solve ops A b piv = C02_FMatrixError, c02_invert ops A piv = C02_FMatrixError
+    & c02_determinant ops A piv = C02_FMatrixError].
+Proof. exact (@nonsquare F absr). Qed.
+
+(* the calls with the DEFAULT argument (solve(x,b), invert(), determinant()): the defaults are re-read from the declarations in
+   densematrix.hh into Params_gen.v on every run; with the values found there the calls pivot, hence for nonsingular A: *)
+Theorem C02_default_arguments : forall n A b, (0 < n)%N -> c02_wfm n A -> c02_wfv n b -> mx n A \in unitmx ->
+  [/\ exists x, c02_solve_dflt ops A b = C02_Ok x /\ mx n A *m cv n x = cv n b,
+      exists B, [/\ c02_invert_dflt ops A = C02_Ok B, mx n A *m mx n B = 1%:M & mx n B *m mx n A = 1%:M]
+    & c02_determinant_dflt ops A = C02_Ok (\det (mx n A))].
+Proof. exact (defaults absr0). Qed.
+
+(* "solve and determinant never modify A or b": the objects after a call (c02_call_*: const members working on a copy);
+   invert() replaces the matrix by its two-sided inverse, and after ANY exception leaves it as it was *)
+Theorem C02_objects_after : forall n (o : c02_objs F) piv, (0 < n)%N -> c02_wfm n (ob_A o) ->
+  [/\ (c02_call_solve ops o piv).2 = o, (c02_call_determinant ops o piv).2 = o
+    & match c02_call_invert ops o piv with
+      | (C02_Ok _, o') => ob_b o' = ob_b o /\ mx n (ob_A o) *m mx n (ob_A o') = 1%:M /\ mx n (ob_A o') *m mx n (ob_A o) = 1%:M
+      | (_, o') => o' = o
+      end].
+Proof. exact (objects_after absr0). Qed.
+
 End Statements.
 
 Print Assumptions C02_solve_sound.
@@ -143,9 +207,25 @@ Print Assumptions C02_diag_solve.
 Print Assumptions C02_diag_invert.
 Print Assumptions C02_diag_complete.
 Print Assumptions C02_diag_det.
+Print Assumptions C02_singular_det.
+Print Assumptions C02_lu_never_divides_by_zero.
+Print Assumptions C02_closed_divbyzero_iff.
+Print Assumptions C02_solve_nopivot_iff.
+Print Assumptions C02_invert_nopivot_iff.
+Print Assumptions C02_lead_is_principal_minor.
+Print Assumptions C02_lu_factorisation.
+Print Assumptions C02_nonsquare.
+Print Assumptions C02_default_arguments.
+Print Assumptions C02_objects_after.
 Print Assumptions C02_invert_twice.
 Print Assumptions C02_checked_singular.
 Print Assumptions C02_checked_regular.
+
+(* the threshold of the optional checking mode: with the default limit of precision.hh (Params_gen.v) the test
+   representative < limit is the zero test on natural-number representatives (how c02_fops reads [oabslim]) *)
+Theorem C02_limit_reading : forall r : nat, c02_zp_abslim (BinInt.Z.of_nat r) = Nat.eqb r 0.
+Proof. exact limit_reading. Qed.
+Print Assumptions C02_limit_reading.
 
 (* ---- non-vacuity: the hypotheses are satisfiable by non-trivial values.  'F_7 with absr = representative. *)
 Definition c02_ex_abs7 (x : 'F_7) : nat := x.
@@ -188,6 +268,12 @@ Definition c02_ex_T := c02_ex_m [:: [:: 1; 1; 0; 0]; [:: 1; 2; 1; 0]; [:: 0; 1; 
 Example C02_ex_nopivot_defined_F7 :
   c02_ex_obs1 (c02_determinant (c02_fops c02_ex_abs7) c02_ex_T false) = C02_Ok 1%N /\
   c02_ex_obsv (c02_solve (c02_fops c02_ex_abs7) c02_ex_T (c02_ex_v [:: 1; 2; 3; 4]%N) false) = C02_Ok [:: 0; 1; 0; 2]%N.
+Proof. by vm_compute. Qed.
+(* singular 4x4 without pivoting: determinant 0; a 2x3 matrix: FMatrixError; default-argument calls pivot *)
+Example C02_ex_deepening_F7 :
+  [/\ c02_ex_obs1 (c02_determinant (c02_fops c02_ex_abs7) c02_ex_S false) = C02_Ok 0%N,
+      c02_ex_obs1 (c02_determinant (c02_fops c02_ex_abs7) (c02_ex_m [:: [:: 1; 2; 3]; [:: 4; 5; 6]]%N) true) = C02_FMatrixError
+    & c02_ex_obsv (c02_solve_dflt (c02_fops c02_ex_abs7) c02_ex_A (c02_ex_v [:: 1; 2; 3; 4]%N)) = C02_Ok [:: 1; 0; 6; 1]%N].
 Proof. by vm_compute. Qed.
 (* the instance run by the correspondence check (integers mod 7) computes the same on this input *)
 Example C02_ex_solve_zp7 :
